@@ -210,7 +210,7 @@ def check(src, rep):
             rep.violation("R6", f"{MOD}.ConnectionManager.close", "event-first", "close() does not set the closing event before anything else", file, close.node.lineno)
             continue
         has = any(strip_epoch(g) == CONN and pol for g, pol, _ in p.guards)
-        if has and not any(str(e[2] if e[0] != "call" else e[1]).endswith("close") and "_connection" in str(e[1]) for e in eff[1:]):
+        if has and not any(str(e[2] if e[0] != "call" else e[1]).endswith("close") and conn in str(e[1]) for e in eff[1:]):
             okc = False
             rep.violation("R6", f"{MOD}.ConnectionManager.close", "transport-not-closed", "close() does not close the current transport", file, close.node.lineno)
     if okc:
